@@ -311,7 +311,7 @@ pub fn gen_graph(p: &GraphParams, rng: &mut Rng) -> GraphSpec {
                         2 => Wrap::Media,
                         _ => Wrap::None,
                     },
-                    LoadKind::LoadCss => *rng.pick(&[Wrap::None, Wrap::Rule, Wrap::If, Wrap::Mixin, Wrap::Each, Wrap::Media]),
+                    LoadKind::LoadCss => *rng.pick(&[Wrap::None, Wrap::Rule, Wrap::If, Wrap::Mixin, Wrap::Each, Wrap::Media, Wrap::Content, Wrap::While]),
                     _ => Wrap::None,
                 }
             };
